@@ -106,6 +106,8 @@ func Reset() {
 	MaxWrites = 3
 	EventfdWrites = 0
 	CloseHook = nil
+	WaitCalls, WaitHook, Batches = 0, nil, nil
+	AllowStaleDel, StaleDels = false, 0
 }
 
 func owned(fd int) bool { return fd >= 0 && fd < NFD && S[fd].Owner == Framework }
@@ -332,6 +334,16 @@ func EpollCtl(epfd, op, fd int, ev *unix.EpollEvent) error {
 		vAssert("C07.epoll_ctl_on_own_epoll_instance", false)
 		return unix.EBADF
 	}
+	if AllowStaleDel && op == unix.EPOLL_CTL_DEL && fd >= 0 && fd < NFD && S[fd].Owner != Framework {
+		// the reactor's answer to an event for a number that is not in its connection set: epoll_ctl(DEL). On a
+		// closed number the kernel says EBADF, on somebody else's descriptor ENOENT (it is not in this epoll set);
+		// neither has any effect on the descriptor.
+		StaleDels++
+		if S[fd].Owner == Free {
+			return unix.EBADF
+		}
+		return unix.ENOENT
+	}
 	if fd < 0 || fd >= NFD || S[fd].Owner == Free {
 		CtlOnClosed++
 		vAssert("C07.epoll_ctl_only_on_open_descriptor", false)
@@ -487,4 +499,32 @@ func SockOpt(fd int, _ int) error {
 		return e
 	}
 	return nil
+}
+
+// ---------------------------------------------------------------------------- epoll_wait (engine A: scripted batches)
+var (
+	WaitCalls     int
+	WaitHook      func(call int) // runs at the start of every epoll_wait (what other goroutines did meanwhile)
+	Batches       [][]unix.EpollEvent
+	AllowStaleDel bool
+	StaleDels     int
+)
+
+// EpollWait returns the harness's next batch of ready events; when the script is exhausted the epoll instance fails
+// (the loop under test is expected to have been asked to stop before that)
+func EpollWait(epfd int, events []unix.EpollEvent, msec int) (int, error) {
+	if !owned(epfd) || !S[epfd].IsEpoll {
+		vAssert("C07.epoll_wait_on_own_epoll_instance", false)
+		return -1, unix.EBADF
+	}
+	WaitCalls++
+	if WaitHook != nil {
+		WaitHook(WaitCalls)
+	}
+	if WaitCalls > len(Batches) {
+		return -1, unix.EBADF
+	}
+	b := Batches[WaitCalls-1]
+	n := copy(events, b)
+	return n, nil
 }
